@@ -504,8 +504,9 @@ fn hashed_zero_cases(cx: &mut Cx, rng: &mut Rng) {
     use vharness::tapes::GOp;
     for zero in 0..5 {
         for hash in 0..4 {
-            // slots: 0 = x, 1 = y, 2 = the zero, 3 = the hash
-            let mut ssa = vec![GOp::new(0, "Output", -1, 3, 0, 0), GOp::new(0, "Output", -1, 2, 1, 0)];
+            // slots: 0 = x, 1 = y, 2 = the zero, 3 = the hash; y is exported too, so that it is used by every variant
+            // (a slot that is defined and never used is not a well-formed tape)
+            let mut ssa = vec![GOp::new(0, "Output", -1, 3, 0, 0), GOp::new(0, "Output", -1, 2, 1, 0), GOp::new(0, "Output", -1, 1, 2, 0)];
             ssa.push(match hash {
                 0 => GOp::new(3, "Rand", 3, 2, -1, 0),
                 1 => GOp::new(4, "Mix", 3, 2, -1, bits(1.0)),
@@ -543,8 +544,8 @@ fn hashed_zero_cases(cx: &mut Cx, rng: &mut Rng) {
                     }
                     let (Ok(vmf), Ok(jf)) = (vm_fn::<255>(&p), jit_fn(&p)) else { continue };
                     let pf = |q: &[f32]| point_trace(&vmf, q).out;
-                    e2e(cx, "vm-hashzero", &vmf, &pf, 2, &bx, &pts, false, &p);
-                    e2e(cx, "jit-hashzero", &jf, &pf, 2, &bx, &pts, false, &p);
+                    e2e(cx, "vm-hashzero", &vmf, &pf, 3, &bx, &pts, false, &p);
+                    e2e(cx, "jit-hashzero", &jf, &pf, 3, &bx, &pts, false, &p);
                 }
             }
         }
@@ -641,6 +642,7 @@ fn main() {
     transformed::<JitFunction>(&mut cx, "jit", &mut rng, if quick { 300 } else { 4000 });
     let n = cx.id;
     file.flush().unwrap();
+    vharness::evalx::exit_on_build_failures("c03");
     eprintln!("c03: {n} records over {} programs", progs.len());
     let _ = unbits(0);
 }
